@@ -11,6 +11,7 @@ import (
 	"sync"
 
 	"mellium.im/xmlstream"
+	"mellium.im/xmpp/crypto"
 	"mellium.im/xmpp/verifharness/core"
 	"mellium.im/xmpp/verifharness/xmltree"
 )
@@ -97,7 +98,7 @@ func encodeAll(c *core.Case, typ string, p any) (out []encoded, panicked bool) {
 		return nil, true
 	}
 	out = append(out, encoded{form, b, err})
-	if m, ok := p.(xmlstream.Marshaler); ok {
+	if m, ok := p.(xmlstream.Marshaler); ok && !documentedToPanic(p) {
 		if guard(c, typ, "TokenReader", func() { b, err = tokensToBytes(m.TokenReader()) }) {
 			return nil, true
 		}
@@ -118,6 +119,14 @@ func encodeAll(c *core.Case, typ string, p any) (out []encoded, panicked bool) {
 		out = append(out, encoded{"WriteXML", b, err})
 	}
 	return out, false
+}
+
+// documentedToPanic: crypto.HashOutput.TokenReader "panics if the original
+// hash is invalid"; for such values only MarshalXML and WriteXML (which return
+// the error) are called.
+func documentedToPanic(p any) bool {
+	h, ok := p.(*crypto.HashOutput)
+	return ok && !hashValid(h.Hash)
 }
 
 func wfCause(err error) string {
@@ -207,6 +216,12 @@ func runValue(c *core.Case, e *entry, g *gen) {
 	smp.Canonical = "yes"
 	if why != "" {
 		smp.Canonical = "no: " + why
+	}
+	if g.outOfRange > 0 {
+		c.Count("enum_out_of_range_values", g.outOfRange)
+	}
+	if g.headerVariants > 0 {
+		c.Count("slot_headers_with_case_variant_keys", g.headerVariants)
 	}
 	enc, ok := checkValue(c, e, v, why, smp)
 	if !ok || e.fresh == nil {
